@@ -29,7 +29,8 @@ CLAIMS["C05"] = {
             "sort provenance tag; the values of merged Literal members are concatenated as they are; T? only under len == 2 and a "
             "none member), that all nine positions call the same translator pair, and that the analyser never writes into "
             "mypy's node / type objects (typed inventory of attribute and item stores), so every position translates the type "
-            "mypy analysed (type aliases are expanded and unions flattened through them, Final[T] translates the analysed T) - the store inventory found that list-typed class attributes were translated from unanalysed arguments "
+            "mypy analysed (type aliases are expanded and unions flattened through them with every flattened member kept, Final[T] translates the analysed T, an instance of a NamedTuple class is named after the class; "
+            "known findings: Callable[..., X] takes the image of a two-parameter callable, tuple[X, ...] the image of the 1-tuple) - the store inventory found that list-typed class attributes were translated from unanalysed arguments "
             "(repaired). These are necessary conditions extracted as tables from the code by partitioned abstract "
             "interpretation; agreement with an independent reference translation of arbitrary annotation text is not decided.",
     "note": TRUST + "Reference tables are the ones the property statement lists.",
@@ -134,7 +135,8 @@ CLAIMS["C17"] = {
             "and inlines exactly the private ones; the names passed to the inlining are the class's own attribute and method "
             "names computed beforehand; the method filter's truth table over (is_public, private name, already defined, inlined) "
             "equals the reference; recursion continues through private ancestors only and receives the caller's names united "
-            "with the names emitted at the nearer level; every emitted method, property and attribute is recorded as defined under its Python name; abstract "
+            "with the names emitted at the nearer level; every emitted method, property and attribute is recorded as defined under its Python name; nested "
+            "classes of an inlined private base pass the same filter (not copied when already defined, recorded when copied) and the class's own nested classes are among the names it passes on; abstract "
             "classes are treated like any other class; an exact qualified-name match wins over the fuzzy class search; no "
             "memo cache keys ancestor text on less than its inputs. The threading of emitted names between sibling private "
             "bases is violated today (known finding: duplicates for C(_A, _B) and diamonds). Whether the suffix search finds "
@@ -244,8 +246,8 @@ CLAIMS["C13"] = {
             "mutable state (so attachment cannot depend on query order); a qualified name resolves segment by segment (only the "
             "root segment may be skipped); every lookup in the visitor uses the node / name / owner of the element being built and "
             "the result is stored on that element; every emitter renders the docstring of the element it emits (with that element "
-            "as node), and @param / @result / description parts come from that element's own data; the module docstring search "
-            "stops at the first string; what the class / function getters collect over the sections of a docstring (description, example "
+            "as node), and @param / @result / description parts come from that element's own data; the module docstring is the "
+            "module's first statement (no search past other statements, no filtered statement list); what the class / function getters collect over the sections of a docstring (description, example "
             "lines) is accumulated and never overwritten by a later section (this rule found 'text after the parameter section "
             "replaces the summary', repaired); in example lines only the line's own prompt marker is rewritten. Line-for-line fidelity "
             "of the text through griffe, the equivalence of the NumPy/Google/reST parsers and which example lines survive are "
